@@ -319,7 +319,8 @@ Proof.
   destruct (rc inl_none d t b) as [[n h]|m| |] eqn:ERC; try contradiction.
   { apply rc_ok_iff in ERC. congruence. }
   destruct T as [s1 [c1 [ET Hc1]]].
-  unfold bs_next_depth in E. change (bs_b (bs_new b)) with b in E. rewrite ET in E. cbn [sbind] in E.
+  unfold bs_next_depth in E. change (bs_b (bs_new b)) with b in E.
+  change {| bs_b := b; bs_n := 0 |} with (bs_new b) in E. rewrite ET in E. cbn [sbind] in E.
   exists m. split; [reflexivity|]. congruence.
 Qed.
 
